@@ -48,8 +48,13 @@ static Scenario s_write(Ctx &c) {
     if (cfg->level > 5) cfg->level = 3; if (cfg->chunk_max > 0 && cfg->chunk_max < 64) cfg->chunk_max = 64;
     auto ops = std::make_shared<std::vector<lib::WOp>>(gen::whistory(c, D->size(), cfg->manual)); if (ops->size() > 60) { ops->resize(60); }
     Scenario s; s.name = "S1 write: D[" + std::to_string(D->size()) + "] cfg{" + cfg->str() + "}"; auto lim = s.limits;
+    // the output as a regular file in the directory the library puts its temporary file in (same file system, so in-kernel copies
+    // between the two are possible), or an anonymous memory file
+    bool regular_out = c.gver >= 4 && c.boolean(); if (regular_out) { s.name += " output=regular file next to the temporary file"; setenv("TMPDIR", "/dev/shm", 1); }
     s.run = [=](const Plan &p) -> std::string {
-        int out = memfd_create("out", 0); zckCtx *z = zck_create(); bool good = true; std::string why;
+        int out = -1; if (regular_out) { char fn[64]; snprintf(fn, sizeof fn, "/dev/shm/c12-out-%d-XXXXXX", (int)getpid()); out = mkstemp(fn); if (out >= 0) unlink(fn); }
+        if (out < 0) out = memfd_create("out", 0);
+        zckCtx *z = zck_create(); bool good = true; std::string why;
         arm(p);
         if (!zck_init_write(z, out)) good = false;
         std::string e; if (good && !lib::apply_cfg(z, *cfg, e)) { disarm(); zck_free(&z); close(out); return ""; }      // refused configuration: outside the property
